@@ -290,6 +290,19 @@ def canonicalise(tree: ast.Module, level=None, relpath: str = None) -> ast.Modul
       pass
   if level >= 3:
     tree = _aliases(tree)
+    # C11: an annotated assignment inside a function (x: T = e, self.f: T = e) is the plain assignment (class-level fields keep theirs)
+    for fn in [n for n in ast.walk(tree) if isinstance(n, (ast.FunctionDef, ast.AsyncFunctionDef))]:
+      for holder in ast.walk(fn):
+        for fld in ('body', 'orelse', 'finalbody'):
+          blk = getattr(holder, fld, None)
+          if isinstance(blk, list) and not isinstance(holder, ast.ClassDef):
+            for i, st in enumerate(blk):
+              if isinstance(st, ast.AnnAssign) and st.value is not None:
+                blk[i] = ast.copy_location(ast.Assign(targets=[st.target], value=st.value, type_comment=None), st)
+    # C12: x[0:n] is x[:n]
+    for sl in [n for n in ast.walk(tree) if isinstance(n, ast.Slice)]:
+      if isinstance(sl.lower, ast.Constant) and sl.lower.value == 0 and not isinstance(sl.lower.value, bool):
+        sl.lower = None
     tree = _Polarity().visit(tree)
     tree = _SplitTuples().visit(tree)
     ast.fix_missing_locations(tree)
